@@ -200,6 +200,9 @@ def gen_case(rng: random.Random, kind: str):
         if u < 0.08:
             case["ops"].append(["train", rng.random() < 0.5])
             continue
+        if u < 0.17 and kind != "malformed":
+            case["ops"].append(gen_state_op(rng, case))
+            continue
         lock = lock0 if rng.random() < 0.9 else (not lock0)
         adapt = adapt0 if rng.random() < 0.85 else rng.choice([True, False, None])
         xs = []
@@ -228,9 +231,117 @@ def gen_case(rng: random.Random, kind: str):
     return case
 
 
+def rand_mat(rng, rows, cols, choices):
+    return [[rng.choice(choices) for _ in range(cols)] for _ in range(rows)]
+
+
+def refrac_choices(p):
+    R, dt = p["refrac_t"], p["step_time"]
+    return [0.0, 0.0, R, R / 2] + ([dt] if dt <= R else [])
+
+
+def gen_state_op(rng, case, only=None):
+    """state written from outside between two steps: public setters, in-place edit of the adaptation tensor,
+    load_state_dict from a twin"""
+    p, cls, B = case["p"], case["cls"], case["batch"]
+    n = nel(case["shape"])
+    K = len(p["adapt_increment"]) if cls in THRESH_ADAPT + CUR_ADAPT else 0
+    kinds = ["set_v", "set_r", "load", "load"] + (["set_adapt", "add_adapt", "add_adapt"] if K else [])
+    k = only or rng.choice(kinds)
+    span = p["thresh_v"] - p["rest_v"]
+    vch = [p["rest_v"], p["rest_v"] + 0.4 * span, p["rest_v"] - 0.3 * span, p["thresh_v"] - 0.01 * span, p["reset_v"]]
+    ach = [0.0, 1.5, 4.0, -2.0, 8.0, 0.25]
+    if k == "set_v":
+        return ["set_v", rand_mat(rng, n, B, vch)]
+    if k == "set_r":
+        return ["set_r", rand_mat(rng, n, B, refrac_choices(p))]
+    if k == "set_adapt":
+        return ["set_adapt", rand_mat(rng, n, K, ach)]
+    if k == "add_adapt":
+        return ["add_adapt", rand_mat(rng, n, K, [-3.0, 2.5, 6.0, 0.5])]
+    return ["load", rand_mat(rng, n, B, vch), rand_mat(rng, n, B, refrac_choices(p)),
+            rand_mat(rng, n, K, ach) if K else [[] for _ in range(n)]]
+
+
+def gen_statemix(rng: random.Random):
+    """adaptive classes; adaptation frozen (eval mode / adapt=False) for a quiet step, then the adaptation state is
+    replaced from outside (in-place edit, load_state_dict, setter) and the next step is driven so that the
+    integrated voltage lands half-way between the threshold before and after the change (for current adaptations:
+    the adapted input lands on either side of the rheobase current): the step must use the values stored NOW."""
+    cls = rng.choice([1, 1, 3, 3, 5, 7])
+    p = gen_params(rng, cls, False)
+    if p["resistance"] < 0:
+        p["resistance"] = -p["resistance"]
+    shape = rng.choice(SHAPES)
+    n = nel(shape)
+    B = rng.choice([1, 2, 3])
+    K = len(p["adapt_increment"])
+    case = {"cls": cls, "p": p, "shape": shape, "batch": B, "v0": None, "ops": [], "exact": False, "kind": "statemix"}
+    ops = case["ops"]
+    lock = rng.random() < 0.7
+    zeros = [[0.0] * B for _ in range(n)]
+    frozen_by = rng.choice(["eval", "adapt_false", "eval_none"])
+    if frozen_by != "adapt_false":
+        ops.append(["train", False])
+    a_flag = {"eval": None, "adapt_false": False, "eval_none": None}[frozen_by]
+    if rng.random() < 0.4:      # some learning first
+        ops.append(["train", True])
+        span = p["thresh_v"] - p["rest_v"]
+        for _ in range(rng.randint(1, 3)):
+            ops.append(["fwd", True, lock, [[span / p["resistance"] * p["time_constant"] / p["step_time"] * 2.0] * B for _ in range(n)]])
+        if frozen_by != "adapt_false":
+            ops.append(["train", False])
+    cur_ad = None   # unknown after learning; the probe below works with an explicit replacement of the state
+    for rep in range(rng.randint(1, 3)):
+        for _ in range(rng.randint(1, 2)):
+            ops.append(["fwd", a_flag, lock, zeros])                      # quiet step(s) with frozen adaptations
+        how = rng.choice(["load", "load", "add_adapt", "add_adapt", "set_adapt"])
+        total = rng.choice([8.0, 6.0, -4.0, 12.0, -6.0])
+        if how == "add_adapt":
+            if cur_ad is None:   # make the stored values known first (through the setter), take a quiet step, then edit in place
+                cur_ad = [[0.0] * K for _ in range(n)]
+                ops.append(["set_adapt", [list(r) for r in cur_ad]])
+                ops.append(["fwd", a_flag, lock, zeros])
+            delta = [[total / K] * K for _ in range(n)]
+            ops.append(["add_adapt", delta])
+            before = [sum(r) for r in cur_ad]
+            cur_ad = [[a + d for a, d in zip(ra, rd)] for ra, rd in zip(cur_ad, delta)]
+        else:
+            before = [sum(r) for r in cur_ad] if cur_ad is not None else [0.0] * n
+            new = [[(b_ + total) / K] * K for b_ in before]
+            if how == "load":
+                ops.append(["load", [[p["rest_v"]] * B for _ in range(n)], zeros, new])
+            else:
+                ops.append(["set_adapt", new])
+            cur_ad = new
+        after = [sum(r) for r in cur_ad]
+        # probe step
+        R, dt, tau = p["resistance"], p["step_time"], p["time_constant"]
+        if cls in THRESH_ADAPT:
+            tgt = [p["thresh_v"] + (b_ + a_) / 2 for b_, a_ in zip(before, after)]
+            ops.append(["set_v", [[t_] * B for t_ in tgt]])
+            ops.append(["set_r", zeros])
+            ops.append(["fwd", a_flag, lock, [[(t_ - p["rest_v"]) / R] * B for t_ in tgt]])
+        else:
+            ops.append(["set_v", [[p["rest_v"]] * B for _ in range(n)]])
+            ops.append(["set_r", zeros])
+            i_star = one_step_current(p, cls, p["rest_v"], p["thresh_v"])
+            ops.append(["fwd", a_flag, lock, [[i_star + (b_ + a_) / 2] * B for b_, a_ in zip(before, after)]])
+        if rng.random() < 0.5:
+            ops.append(["train", True])
+            ops.append(["fwd", None, lock, zeros])
+            cur_ad = None
+            if frozen_by != "adapt_false":
+                ops.append(["train", False])
+    return case
+
+
 def gen_cases(rng, n):
     out = []
     for i in range(n):
+        if i % 6 == 4:
+            out.append(gen_statemix(rng))
+            continue
         kind = "malformed" if i % 12 == 11 else ("exact" if i % 4 == 1 else "random")
         out.append(gen_case(rng, kind))
     return out
@@ -278,6 +389,16 @@ def q_op(op):
         return f"Clr {F.coq_bool(op[1])}"
     if op[0] == "train":
         return f"Trn {F.coq_bool(op[1])}"
+    if op[0] == "set_adapt":
+        return f"SetA {q_mat(op[1])}"
+    if op[0] == "add_adapt":
+        return f"AddA {q_mat(op[1])}"
+    if op[0] == "set_v":
+        return f"SetV {q_mat(op[1])}"
+    if op[0] == "set_r":
+        return f"SetR {q_mat(op[1])}"
+    if op[0] == "load":
+        return f"Load {q_mat(op[1])} {q_mat(op[2])} {q_mat(op[3])}"
     raise AssertionError(op)
 
 
@@ -398,6 +519,40 @@ def oracle_case(case, ri):
                 if K and any(not F.close(a, e) for a, e in zip(nad[i], exp_ad)):
                     fail("clear_adaptation", step=k, neuron=i, got=nad[i], expected=exp_ad)
             v, r, ad = nv, nr, (nad if K else ad)
+            continue
+        if op[0] in ("set_adapt", "add_adapt", "set_v", "set_r", "load"):
+            # state written from outside: check the write took effect, then CONTINUE FROM THE VALUES ACTUALLY STORED
+            # (the next step's threshold / adapted input is computed from them)
+            exp_v, exp_r, exp_ad = v, r, ad
+            if op[0] == "set_adapt":
+                exp_ad = op[1]
+            elif op[0] == "add_adapt":
+                exp_ad = [[a + d for a, d in zip(ra, rd)] for ra, rd in zip(ad, op[1])]
+            elif op[0] == "set_v":
+                exp_v = op[1]
+            elif op[0] == "set_r":
+                exp_r = op[1]
+            else:
+                exp_v, exp_r = op[1], op[2]
+                exp_ad = op[3] if K else ad
+            def same(a_, b_):
+                return len(a_) == len(b_) and all(len(x_) == len(y_) and all(F.close(p_, q_) or (p_ != p_ and q_ != q_)
+                                                  for p_, q_ in zip(x_, y_)) for x_, y_ in zip(a_, b_))
+            if not same(nv, exp_v):
+                fail("state_write_voltage", step=k, op=op[0], expected=exp_v, got=nv)
+            if not same(nr, exp_r):
+                fail("state_write_refrac", step=k, op=op[0], expected=exp_r, got=nr)
+            if K and not same(nad, exp_ad):
+                fail("state_write_adaptation", step=k, op=op[0], expected=exp_ad, got=nad)
+            v, r = nv, nr
+            if K:
+                ad = nad
+            for i in range(n):
+                for b in range(B):
+                    if op[0] in ("set_r", "load"):
+                        last[i][b] = None          # the refractory state was overwritten: window tracking restarts
+                    elif op[0] == "set_v" and last[i][b] is not None:
+                        last[i][b] = (last[i][b][0], last[i][b][1], False)
             continue
         adapt, lock, xs = op[1], op[2], op[3]
         eff = adapt if adapt is not None else training
@@ -543,7 +698,10 @@ def run(ctx):
     return {
         "evaluations": len(cases),
         "distinct_nontrivial": len({json.dumps(c, sort_keys=True) for c, ri in zip(cases, impl) if is_nontrivial(c, ri)}),
-        "rule": "seeded operation sequences (forward with adapt in {True,False,None} and refrac_lock on/off, clear, train/eval) on all "
+        "rule": "seeded operation sequences (forward with adapt in {True,False,None} and refrac_lock on/off, clear, train/eval, "
+                "state written from outside between steps: voltage/refrac/adaptation setters, in-place adaptation edits, load_state_dict "
+                "from a twin; every 6th case freezes the adaptations, replaces them from outside and probes half-way between the old and "
+                "new threshold) on all "
                 "8 neuron classes; refrac_t in {0, dt/2, dt, 2dt, 2.5dt, 3dt, 5dt, 4.2dt, 0.37}; dt in {1, .5, .25, .1, 1.3}; batch 1-3, "
                 "5 shapes, K in {1,2}; drives zero/supra/random/huge/negative/near-threshold per cell; every 4th case dyadic with the "
                 "first step exactly on / just off the threshold; every 12th case leaves one constructor domain; non-trivial = >=3 "
